@@ -8,12 +8,12 @@ CORE = "MC_core.tla"
 
 # model-checking configurations: name -> (quick MaxDepth, thorough MaxDepth)
 MC_DEPTH = {
-    "MC_relay": (5, 7), "MC_relayB": (8, 10), "MC_time": (8, 10), "MC_iso": (5, 6), "MC_v6": (6, 7), "MC_mtu": (4, 5), "MC_resv": (5, 6),
+    "MC_relay": (5, 7), "MC_relayB": (8, 10), "MC_time": (8, 10), "MC_iso": (5, 6), "MC_v6": (6, 7), "MC_mtu": (4, 5), "MC_resv": (5, 6), "MC_stream": (6, 7), "MC_quota": (6, 7),
 }
 # generation slices: name -> (quick MaxDepth, thorough MaxDepth)
 GEN_DEPTH = {
     "GEN_relayA": (6, 7), "GEN_relayB": (6, 7), "GEN_relayD": (4, 5), "GEN_time": (7, 8), "GEN_users": (5, 6),
-    "GEN_iso": (4, 5), "GEN_v6": (4, 5), "GEN_v6strict": (5, 6), "GEN_mtu": (4, 4), "GEN_mtu1200": (4, 4), "GEN_resv": (4, 5), "GEN_recycle": (7, 8),
+    "GEN_iso": (4, 5), "GEN_v6": (4, 5), "GEN_v6strict": (5, 6), "GEN_mtu": (4, 4), "GEN_mtu1200": (4, 4), "GEN_resv": (4, 5), "GEN_recycle": (7, 8), "GEN_stream": (5, 6), "GEN_quota": (5, 6),
 }
 
 
@@ -178,7 +178,7 @@ def c18_run(ctx):
 
 
 def c05_run(ctx):
-    core_run(["MC_mtu"], ["GEN_mtu", "GEN_mtu1200", "GEN_relayA", "GEN_recycle"])(ctx)
+    core_run(["MC_mtu"], ["GEN_mtu", "GEN_mtu1200", "GEN_relayA", "GEN_recycle", "GEN_stream"])(ctx)
     if not ctx.violations:
         n = 24 if ctx.tier == "quick" else 300
         ctx.trace_validate("relay", "TestRelayTrace", "TraceRelay.tla", "TraceRelay.cfg", n)
@@ -194,7 +194,7 @@ def c14_run(ctx):
 
 PROPS = {
     "C01": dict(title="client data leaves only toward authorised peers", level="model_checking",
-                run=with_server_trace(core_run(["MC_relay", "MC_relayB", "MC_tcp", "MC_iso"], ["GEN_relayA", "GEN_relayB", "GEN_relayD", "GEN_v6", "GEN_tcpB", "GEN_iso"])),
+                run=with_server_trace(core_run(["MC_relay", "MC_relayB", "MC_tcp", "MC_iso"], ["GEN_relayA", "GEN_relayB", "GEN_relayD", "GEN_v6", "GEN_tcpB", "GEN_iso", "GEN_stream"])),
                 assumptions=BASE_ASSUME + ["the TCP connect target clause is decided on TurnTCP.tla (Connect to a vetoed peer: 403, no connection)"]),
     "C02": dict(title="only authorised peers reach the client", level="model_checking",
                 run=with_server_trace(core_run(["MC_relay", "MC_relayB", "MC_v6", "MC_tcp"], ["GEN_relayA", "GEN_relayB", "GEN_relayD", "GEN_v6", "GEN_tcpA", "GEN_recycle"])),
@@ -205,7 +205,7 @@ PROPS = {
                                            "bytes are compared and when, for the credential-defect classes of TurnAuth.tla and the mutation classes of Nonce.tla",
                                            "nonce ages 3601..3659 s are a grey band (implementation granularity) that is never probed"]),
     "C04": dict(title="allocations are isolated by 5-tuple", level="model_checking",
-                run=with_server_trace(core_run(["MC_iso", "MC_relay"], ["GEN_iso", "GEN_relayD", "GEN_v6", "GEN_tcpB", "GEN_relaygenA"])),
+                run=with_server_trace(core_run(["MC_iso", "MC_relay", "MC_stream"], ["GEN_iso", "GEN_relayD", "GEN_v6", "GEN_tcpB", "GEN_relaygenA", "GEN_stream"])),
                 assumptions=BASE_ASSUME),
     "C05": dict(title="payloads intact, exactly once, truthful attribution", level="model_checking",
                 run=c05_run,
@@ -214,7 +214,7 @@ PROPS = {
                                            "inbound MTU 1600 and 1200, 25 boundary lengths plus random ones up to 9000, single datagrams and bursts of 3-8 that arrive before the application reads; "
                                            "every arrival must be byte-identical to something sent in that direction for that endpoint, once, truthfully attributed; within the limits it must have arrived when the execution settles"]),
     "C06": dict(title="allocation lifetime, refresh and deletion are exact", level="model_checking",
-                run=with_server_trace(core_run(["MC_time", "MC_life"], ["GEN_time", "GEN_users", "GEN_relayA", "GEN_lifeA"])),
+                run=with_server_trace(core_run(["MC_time", "MC_life", "MC_stream"], ["GEN_time", "GEN_users", "GEN_relayA", "GEN_lifeA", "GEN_stream"])),
                 assumptions=BASE_ASSUME),
     "C07": dict(title="permissions and channels live one full timeout past their last refresh", level="model_checking",
                 run=with_server_trace(core_run(["MC_relay", "MC_relayB", "MC_steps"], ["GEN_relayA", "GEN_relayB", "GEN_steps"])),
@@ -267,7 +267,7 @@ PROPS = {
                              "'at once' is read as: at once on a loss-free network, and within one transaction (8 s) when transmissions are lost",
                              "'any number of peers' is not explored (4 peers); with several hundred peers the permission refresh exceeds the server's inbound MTU (observation D13 in DESIGN.md)"]),
     "C15": dict(title="server resources and lifecycle events balance through every teardown", level="model_checking",
-                run=core_run(["MC_life", "MC_tcp", "MC_steps", "MC_resv"], ["GEN_lifeA", "GEN_lifeB", "GEN_tcpB", "GEN_steps", "GEN_resv"]),
+                run=core_run(["MC_life", "MC_tcp", "MC_steps", "MC_resv"], ["GEN_lifeA", "GEN_lifeB", "GEN_tcpB", "GEN_steps", "GEN_resv", "GEN_stream"]),
                 assumptions=BASE_ASSUME + ["after every step the lifecycle callbacks made during the step are compared with the spec's EvDiff (created/deleted events per allocation, permission, channel), "
                                            "the relay sockets handed out by the harness generator with the live allocations (open count, closed at most once)",
                                            "every path ends with Server.Close followed by a two-hour drain: created - deleted must be 0 for every key, AllocationCount 0, every relay socket closed, and no lifecycle event may arrive late (a timer that outlived its allocation); "
@@ -302,7 +302,7 @@ PROPS = {
                              "NOT decided by this family of technique: data races (a TLA+ model has no memory model; the thorough tier runs the same replays under the race detector, which only monitors the schedules replayed) and lock release over all control-flow paths (only the paths the generated behaviours drive)",
                              "call-outs that take time while the library holds a lock (OnPermissionDeleted, OnChannelDeleted, OnPermissionCreated on the ChannelBind path) cannot take virtual time (synctest does not see mutex waits); they are gated, not slept in"]),
     "C19": dict(title="responses correlated, truthful, idempotent", level="model_checking",
-                run=with_server_trace(core_run(["MC_time", "MC_iso", "MC_resv"], ["GEN_time", "GEN_users", "GEN_iso", "GEN_v6", "GEN_v6strict", "GEN_resv", "GEN_relaygenA"])),
+                run=with_server_trace(core_run(["MC_time", "MC_iso", "MC_resv", "MC_quota"], ["GEN_time", "GEN_users", "GEN_iso", "GEN_v6", "GEN_v6strict", "GEN_resv", "GEN_relaygenA", "GEN_quota", "GEN_stream"])),
                 assumptions=BASE_ASSUME),
 }
 
